@@ -312,8 +312,19 @@ def run(tier, seed):
     import einx._src.frontend.backend as B
 
     chk = Check("C11", tier, seed, "other")
-    for k in c11_registry.KERNELS + c11_names.KERNELS:
+    from ..kernels import c04_api_inner
+    for k in c11_registry.KERNELS + c11_names.KERNELS + [q for q in c04_api_inner.KERNELS if q.id == "C04.P.api_entry[run]"]:  # the entry point hands registry.get the backend argument and ALL raw tensor arguments
         chk.add_kernel(run_kernel(k, tier))
+    import einx
+    api_cases = [("add", "a, a", [lambda shape: np.ones(shape), lambda shape: np.ones(shape)], {"a": 3}, "BackendResolutionError"), ("add", "a, ", [lambda shape: np.ones(shape), 2.0], {"a": 3}, "BackendResolutionError"),
+                 ("add", ", ", [1.0, 2.0], {}, "value"), ("add", "a, a", [np.ones(3), lambda shape: np.ones(shape)], {}, "value")]
+    for op, d, ts, kw, want in api_cases:
+        o = harness.outcome(lambda: getattr(einx, op)(d, *ts, **kw), 20)
+        got = "value" if o[0] == "ok" else o[1].split(".")[-1] if o[0] == "exc" else "timeout"
+        if got != want:
+            chk.violation("C11.B.api_selection", f"einx.{op}({d!r}) with argument kinds {[type(t).__name__ for t in ts]} and no backend argument / with-block: {got}, documented selection gives {want} "
+                          "(tensor factories and scalars are arguments like any other: zero candidates raise BackendResolutionError, scalars alone select numpy)", replay={"kind": "case", "case": {"op": op, "description": d}}, found_input=True)
+    chk.add_bounded("public calls whose tensor arguments are only factories / scalars / one array", "4 calls", len(api_cases), len(api_cases))
     rng = random.Random(seed)
     m0 = list(range(len(entries("eager"))))
     lr_orders = [m0, m0[::-1]] + [rng.sample(m0, len(m0)) for _ in range(4 if tier == "quick" else 60)]
